@@ -119,11 +119,13 @@ def geom_attrs(nd):
     return [(n, str(v)) for n, v in a]
 
 
-def concretise(doc, noise=None):
-    """ADoc -> SVG text."""
+def concretise(doc, flags=()):
+    """ADoc -> SVG text.  flags: "ws" (inter-element whitespace), "xmldecl"."""
     vb = doc["vb"]
-    out = ['<svg xmlns="%s" xmlns:xlink="%s" viewBox="%s"%s>' % (
-        SVGNS, XLINK, " ".join(str(x) for x in vb), attrs_xml(doc.get("root", [])))]
+    foo = any(a[0].startswith("foo:") for nd in doc["nodes"] for a in nd["at"])
+    out = ['<svg xmlns="%s" xmlns:xlink="%s"%s viewBox="%s"%s>' % (
+        SVGNS, XLINK, ' xmlns:foo="http://example.com/foo"' if foo else "",
+        " ".join(str(x) for x in vb), attrs_xml(doc.get("root", [])))]
     stack = []
     nodes = doc["nodes"]
     for i, nd in enumerate(nodes):
@@ -136,6 +138,12 @@ def concretise(doc, noise=None):
         nxt = nodes[i + 1]["d"] if i + 1 < len(nodes) else 0
         tag = nd["tag"]
         txt = nd.get("text")
+        if tag == "#comment":
+            out.append("<!-- noise -->")
+            continue
+        if tag == "#pi":
+            out.append("<?noise data?>")
+            continue
         if tag in ("linearGradient", "radialGradient"):
             if nd.get("ref"):
                 extra.append(("xlink:href", "#" + nd["ref"]))
@@ -157,7 +165,10 @@ def concretise(doc, noise=None):
     while stack:
         out.append("</%s>" % stack.pop()[1])
     out.append("</svg>")
-    return "".join(out)
+    text = ("\n  " if "ws" in flags else "").join(out)
+    if "xmldecl" in flags:
+        text = '<?xml version="1.0" encoding="UTF-8"?>\n' + text
+    return text
 
 
 # --------------------------------------------------------------------------- projection
@@ -402,16 +413,16 @@ def structure(svg_text):
     def text_node(depth, s):
         if s and s.strip():
             nodes.append({"d": depth, "k": "text", "ns": "svg", "tag": "#text", "at": [], "toks": [],
-                          "fillref": []})
+                          "fillref": [], "gnum": []})
 
     def walk(el, depth):
         if el.tag is etree.Comment:
             nodes.append({"d": depth, "k": "comment", "ns": "svg", "tag": "#comment", "at": [],
-                          "toks": [], "fillref": []})
+                          "toks": [], "fillref": [], "gnum": []})
             return
         if el.tag is etree.ProcessingInstruction or not isinstance(el.tag, str):
             nodes.append({"d": depth, "k": "pi", "ns": "svg", "tag": "#pi", "at": [], "toks": [],
-                          "fillref": []})
+                          "fillref": [], "gnum": []})
             return
         q = etree.QName(el.tag)
         at = []
@@ -433,8 +444,19 @@ def structure(svg_text):
         if m:
             fillref = list(m.group(1))
             nrefs[0] += 1
+        gnum = []
+        if q.localname in ("linearGradient", "radialGradient"):
+            for name in ("x1", "y1", "x2", "y2", "cx", "cy", "r", "fx", "fy", "fr"):
+                if name in el.attrib:
+                    try:
+                        gnum.append([name, _micro(float(el.attrib[name]))])
+                    except ValueError:
+                        gnum.append([name, -2 ** 30])
+            if "gradientTransform" in el.attrib:
+                for k, v in enumerate(_tf6(el.attrib["gradientTransform"])):
+                    gnum.append(["gt%d" % k, _micro(v)])
         nodes.append({"d": depth, "k": "el", "ns": "svg" if q.namespace == SVGNS else "other",
-                      "tag": q.localname, "at": at, "toks": toks, "fillref": fillref})
+                      "tag": q.localname, "at": at, "toks": toks, "fillref": fillref, "gnum": gnum})
         text_node(depth + 1, el.text)
         for ch in el:
             walk(ch, depth + 1)
@@ -442,6 +464,20 @@ def structure(svg_text):
 
     walk(root, 0)
     return {"nodes": nodes}, nrefs[0]
+
+
+def _micro(v):
+    m = int(round(v * 10 ** 6))
+    return m if abs(m) < 2 ** 30 else -2 ** 30
+
+
+def _tf6(t):
+    nums = [float(x) for x in re.findall(r"[-+]?(?:\d+\.?\d*|\.\d+)(?:[eE][-+]?\d+)?", t)]
+    if t.strip().startswith("matrix") and len(nums) == 6:
+        return nums
+    if t.strip().startswith("translate") and len(nums) in (1, 2):
+        return [1, 0, 0, 1, nums[0], nums[1] if len(nums) == 2 else 0]
+    return [float("nan")] * 0
 
 
 _RAW = re.compile(r"([A-Za-df-z])|([^A-Za-df-z\s,]+)")
